@@ -262,6 +262,16 @@ WHERE batches.user = %s AND batches.id = %s AND batch_updates.update_id = %s AND
 
         return self.run(dm.delete_committed_job_groups_inst_coll_staging_records(self.db))
 
+    def compact_billing(self):
+        """driver.main.compact_agg_billing_project_users_table + ..._by_date_table (real code)."""
+        import batch.driver.main as dm
+
+        app = dict(self.app)
+        app["feature_flags"] = {"compact_billing_tables": True}
+        r1 = self.run(dm.compact_agg_billing_project_users_table(app, self.db))
+        r2 = self.run(dm.compact_agg_billing_project_users_by_date_table(app, self.db))
+        return r1, r2
+
     def clean_cancellable(self):
         import batch.driver.main as dm
 
